@@ -347,16 +347,17 @@ def run(rep: Report, tier: str):
 
     check_pitfalls(repo, rep, "C05.dataflow", handler_functions(repo))
     check_constant_ctor(repo, rep)
-    sums = all_summaries(repo)
-    rep.units = {"opcode_classes": len(sums), "paths": sum(len(s.paths) for s in sums)}
-    check_dataflow(rep, sums)
-    check_body_edits(rep, sums)
-    check_in_place(rep, sums)
-    check_ast_fields(repo, rep, sums)
     from .c09 import check_memo
 
     rep.rule("C05.memo-alias", "PUT-family/MEMOIZE store the node on top of the stack under the VM's key and GETs push that very node (sharing through the memo)", 9)
-    check_memo(repo, rep, sums, RULE="C05.memo-alias")
+    with rep.part("opcode summaries"):  # a handler outside the abstract interpreter's model leaves these undecided, not the worlds below
+        sums = all_summaries(repo)
+        rep.units = {"opcode_classes": len(sums), "paths": sum(len(s.paths) for s in sums)}
+        check_dataflow(rep, sums)
+        check_body_edits(rep, sums)
+        check_in_place(rep, sums)
+        check_ast_fields(repo, rep, sums)
+        check_memo(repo, rep, sums, RULE="C05.memo-alias")
 
     # interpreted last: the rules above stand on their own if the decompiler cannot be interpreted over an input
     from ..vmworlds import C05_KEYS, report as _vm_report
